@@ -198,7 +198,8 @@ func c20Run(h c20Harness, choose func(p *vsync.Point) int) (vsync.Result, *c20Wo
 				w.ev("cb", "onDispose", 0, "")
 			})
 		}}
-		ctx, err := api.Context(api.BuildOptions{EntryPoints: []string{"virtual:entry"}, Bundle: true, Write: false, LogLevel: api.LogLevelSilent, Plugins: []api.Plugin{plugin}, Format: api.FormatESModule, Outfile: "/out.js", AbsWorkingDir: "/"})
+		ctx, err := api.Context(api.BuildOptions{EntryPoints: []string{"virtual:entry"}, Bundle: true, Write: false, LogLevel: api.LogLevelSilent, Plugins: []api.Plugin{plugin}, Format: api.FormatESModule, Outfile: "/out.js", AbsWorkingDir: "/",
+			Inject: []string{"virtual:inject"}}) // an injected file is resolved and loaded through the plugin as well (before the entry points are scanned)
 		if err != nil {
 			panic(fmt.Sprintf("context: %v", err))
 		}
@@ -503,6 +504,10 @@ func runC20(c *Check) {
 		bound = 2
 	}
 	if c.shardN <= 1 {
+		if os.Getenv("VERIF_C20_ONLY") == "service" { // debugging aid
+			c20Service(c)
+			return
+		}
 		c20Parent(c, bound)
 		return
 	}
@@ -619,6 +624,9 @@ func c20Parent(c *Check, bound int) {
 	c.mu.Unlock()
 	if c.replayKey == "" || strings.HasPrefix(c.replayKey, "data-race:") {
 		freeRacePass(c)
+	}
+	if c.replayKey == "" || strings.HasPrefix(c.replayKey, "service:") {
+		c20Service(c)
 	}
 }
 
